@@ -97,6 +97,10 @@ def virtual_runs(ctx, lab, count):
         d8 = (r == 0)
         if d8:
             timeout = 1
+        # longer timeouts cost nothing on a virtual clock: "timeout plus a small bounded overhead" must not grow with it
+        slow = (not d8) and r % 4 == 3
+        if slow:
+            timeout = rng.choice([3, 6, 11, 21])
         plan = {}
         for w, sl in enumerate(ms):
             t = 0.0
@@ -109,6 +113,10 @@ def virtual_runs(ctx, lab, count):
                 # first one beyond it (~1.2): the loop leaves through `else` with nobody alive
                 times = [min(x, 1.0) for x in times[:-1]] + [1.0 + 1 / 16 + w / 64]
                 times.sort()
+            if slow and w == 0 and times:
+                # worker 0 keeps delivering far beyond the timeout, so the search is cut short
+                f = (2.5 * timeout + 2.0) / times[-1]
+                times = [x * f for x in times]
             plan[w] = times
         overshoot = [rng.choice([0.0, 0.0, 1 / 32, 1 / 4]) for _ in range(400)] if not d8 else []
         seq = lab.run(kern, workers=None)
@@ -131,6 +139,16 @@ def virtual_runs(ctx, lab, count):
             n_cut += 1
         else:
             n_done += 1
+        # ---- the clock clause, in virtual time: the loop is left at most one poll interval (the property's fifth of a
+        # second) plus the clock's overshoot after the timeout, whatever the timeout is
+        if timeout >= 0 and len(rec.readings) >= 2:
+            span = rec.readings[-1] - rec.readings[0]
+            vbound = timeout + 0.2 + (max(overshoot) if overshoot else 0.0) + 1e-6
+            ctx.count("virtual_span_checked")
+            if span > vbound:
+                ctx.violation("on a virtual clock the LCD poll loop was left %.2fs after it was entered with timeout %s "
+                              "(bound %.2fs = timeout + 0.2s poll interval + clock overshoot); klen %d, %d workers"
+                              % (span, timeout, vbound, klen, n), dict(rp, loop_span=span, bound=vbound, sleeps=rec.sleeps[:12]))
         # ---- model on the same schedule
         if rec.sections != ms:
             ctx.correspondence_break("slices", {"klen": klen, "n": n, "model": ms, "impl": rec.sections})
@@ -438,6 +456,10 @@ def replay(ctx, path):
                       start_delays=sd, watchdog=200)
     killed = killed_of(rec)
     ok = (not rec.error) and bool(rec.timed_out) == any(k for k in killed if k) and not rec.leftover
+    if kind == "virtual" and "bound" in rep and not rec.error and len(rec.readings) >= 2:
+        span = rec.readings[-1] - rec.readings[0]
+        print("virtual time between entering and leaving the poll loop: %.2fs (bound %.2fs)" % (span, rep["bound"]))
+        ok = ok and span <= rep["bound"]
     print("timed_out=%s killed=%s entries=%s wall=%.2fs wait=%s leftover=%s error=%s" % (
         rec.timed_out, killed, None if rec.lcd is None else len(rec.lcd), rec.wall or -1, rec.wait_wall, rec.leftover, rec.error))
     print("flag <=> cut holds, nothing left running" if ok else "PROPERTY FAILS")
